@@ -92,6 +92,26 @@ end Group
 
 /-! ### Birkhoff interpolation -/
 
+/-- the matrix that `birkhoff_coeffs` inverts (the "Birkhoff matrix" of the admissible-set condition): entry (i, j) is
+    the j-th multiplier of the pair `(x_i, r_i)`, i.e. the coefficient of `c_j` in `f^(r_i)(x_i)` for `f = Σ c_j X^j` -/
+theorem birkhoffMatrix_entry (params : List (F × ℕ)) (i j : Fin params.length) :
+    toMatrix (birkhoffMatrix params) i j =
+      if (j : ℕ) < (params[i]).2 then 0
+      else (((j : ℕ).descFactorial (params[i]).2 : ℕ) : F) * (params[i]).1 ^ ((j : ℕ) - (params[i]).2) := by
+  rw [Mat.toMatrix_apply, Math.get_birkhoffMatrix, Math.multiplier_eq]
+
+/-- `polynomial_coeff_multipliers(x, r, n)` are the coefficients of the functional `f ↦ f^(r)(x)` on polynomials
+    with at most n coefficients -/
+theorem coeffMultipliers_derivative (x : F) (r n : ℕ) (coeffs : List F) (hlen : coeffs.length ≤ n) :
+    (coeffMultipliers x r n).length = n ∧
+    derivativeAt coeffs r x = ∑ k ∈ Finset.range n, (coeffMultipliers x r n).getD k 0 * coeffs.getD k 0 := by
+  refine ⟨coeffMultipliers_length x r n, ?_⟩
+  rw [Math.derivativeAt_eq_sum_multiplier coeffs n hlen]
+  apply Finset.sum_congr rfl
+  intro k hk
+  have hk' : k < n := Finset.mem_range.mp hk
+  simp [coeffMultipliers, hk']
+
 /-- `birkhoff_coeffs` returns normally exactly when there is at least one parameter and the multiplier matrix is
     non-singular; otherwise it panics (never a wrong answer, never an `Err`). -/
 theorem birkhoff_defined (params : List (F × ℕ)) :
